@@ -42,7 +42,7 @@ M = [
  ('C06-number-size-20', ['C06'], 'dom/serialize.h', 'constexpr size_t kNumberSize = 33;', 'constexpr size_t kNumberSize = 20;'),
  ('C07-sci-switch', ['C07'], 'internal/ftoa.h', 'bool exp_fmt = sci_exp < -6 || sci_exp > 20;', 'bool exp_fmt = sci_exp < -7 || sci_exp > 20;'),
  ('C07-even-inclusion', ['C07'], 'internal/ftoa.h', 'upper = vbr - !even;', 'upper = vbr - even;'),
- ('C08-div10k-constant', ['C08'], 'internal/arch/common/x86_common/itoa.h', '    0xd1b71759,\n    0xd1b71759,', '    0xd1b71758,\n    0xd1b71759,'),
+ ('C08-div10k-constant', ['C08'], 'internal/arch/common/x86_common/itoa.h', 'kVec4xDiv10k[4] sonic_align(16) = {\n    0xd1b71759,', 'kVec4xDiv10k[4] sonic_align(16) = {\n    0xd1b71758,'),
  ('C08-17-20-boundary', ['C08'], 'internal/itoa.h', 'if (hi < 100) {  // 2 digits', 'if (hi <= 100) {  // 2 digits'),
  ('C09-tail-mask-off-by-one', ['C09'], 'internal/arch/common/x86_common/quote.inc.h', '(VEC_FULL_MASK >> (VEC_LEN - nb))', '(VEC_FULL_MASK >> (VEC_LEN - nb + 1))'),
  ('C09-page-guard', ['C09'], 'internal/arch/common/x86_common/quote.inc.h', '<= (PAGE_SIZE - VEC_LEN * 2)) {', '<= (PAGE_SIZE - 1)) {'),
